@@ -35,8 +35,8 @@ ASSUMPTIONS = [
     'garbage that happens to be a loadable pickle of some other object is outside the statement ("unreadable") and is skipped and counted',
     'constant-cell parsing only; file-permission faults are not injected (the checks run as root)',
 ]
-N_CFG = {'quick': 12, 'thorough': 96}
-BUDGET_S = {'quick': 230, 'thorough': 2700}
+N_CFG = {'quick': 12, 'thorough': 192}
+BUDGET_S = {'quick': 230, 'thorough': 3600}
 MIN_DECIDING = 50
 
 _mon = Monitor()
